@@ -65,16 +65,29 @@ EST_TOTAL = dict(COMMON, params=dict(measurements='seq:obj'), requires=[], sites
 
 # "a total supplied by the caller is used exactly": estimate() hands its own `total` argument to whichever solver runs
 ESTIMATE = dict(params=dict(self='obj:FactoredInference', measurements='obj:', total='obj:', engine='obj:', callback='obj:', options='obj:dict'),
-                requires=[], pure={'.fix_measurements': 'obj'},
+                requires=[], pure={'.fix_measurements': 'obj', 'callbacks.Logger': 'obj'}, attr_types={('FactoredInference', 'log'): 'bool', ('FactoredInference', 'model'): 'obj:'},
                 sites=[dict(func='.' + nm, arg=1, kw='total', name='solver-gets-the-callers-total', spec='same(__arg, total__old)')
-                       for nm in ('mirror_descent', 'dual_averaging', 'interior_gradient')],
-                ensures={})
+                       for nm in ('mirror_descent', 'dual_averaging', 'interior_gradient')] +
+                      # which solver runs, on what: the engine named by the caller, on the normalised measurement list
+                      [dict(func='.' + nm, arg=0, name='solver-gets-the-normalised-measurements', spec='same(__arg, self.fix_measurements(measurements__old))')
+                       for nm in ('mirror_descent', 'dual_averaging', 'interior_gradient')] +
+                      [dict(func='if', contains='self.%s(measurements, total, **options)' % nm, name='engine-%s-runs-%s' % (eng_, nm), spec="engine == '%s'" % eng_)
+                       for eng_, nm in (('MD', 'mirror_descent'), ('RDA', 'dual_averaging'), ('IG', 'interior_gradient'))],
+                ensures={'the-model-is-returned': 'same(result, self.model)'})
+
+# the deprecated alias hands every argument on unchanged
+INFER = dict(params=dict(self='obj:FactoredInference', measurements='obj:', total='obj:', engine='obj:', callback='obj:', options='obj:dict'),
+             requires=[], pure={'.estimate': 'obj', 'warnings.warn': 'obj'},
+             sites=[dict(func='.estimate', arg=i, name='infer-hands-on-%s' % nm, spec='same(__arg, %s__old)' % nm)
+                    for i, nm in enumerate(('measurements', 'total', 'engine', 'callback', 'options'))],
+             ensures={'returns-what-estimate-returns': 'same(result, self.estimate(measurements, total, engine, callback, options))'})
 
 # (file, qualified name, contract)
 ITEMS = [
     ('src/mbi/inference.py', 'FactoredInference._setup', setup_contract('FactoredInference', ['GraphicalModel'])),
     ('src/mbi/local_inference.py', 'LocalInference._setup', setup_contract('LocalInference', ['RegionGraph', 'FactorGraph'])),
     ('src/mbi/inference.py', 'FactoredInference.estimate', ESTIMATE),
+    ('src/mbi/inference.py', 'FactoredInference.infer', INFER),
     ('src/mbi/public_inference.py', 'estimate_total', EST_TOTAL),
     ('src/mbi/mixture_inference.py', 'estimate_total', EST_TOTAL),
 ]
